@@ -145,27 +145,12 @@ Proof. unfold and_combine. rewrite and_matches_acc. cbn. intuition. Qed.
 Section Spec.
 Variable cx : ctx.
 
-(* the genes closer than the cutoff *)
-Definition near (g : Z) : list Z := feat_others cx g.
-
-Definition count_in (opts : list Z) (o : Z) : Z := zlen (sinter opts (poss cx o)).
-
-Fixpoint holds (c : cond) (g : Z) (local : bool) {struct c} : bool :=
-  match c with
-  | Single neg p => xorb neg (has cx g p || (negb local && existsb (fun o => has cx o p) (near g)))
-  | Score neg p s => xorb neg (scored cx g p s || (negb local && existsb (fun o => scored cx o p s) (near g)))
-  | Minimum neg k opts =>
-    xorb neg (k <=? fold_left (fun acc o => acc + count_in opts o) (near g) (count_in opts g))
-  | Cds neg subs =>
-    let sat := fun g' => existsb (fun it => match it with
-                           | ICond c' => holds c' g' true
-                           | IAnd cs => forallb (fun c' => holds c' g' true) cs end) subs in
-    xorb neg (sat g || (negb local && existsb sat (near g)))
-  | Group neg subs =>
-    xorb neg (existsb (fun it => match it with
-                           | ICond c' => holds c' g local
-                           | IAnd cs => forallb (fun c' => holds c' g local) cs end) subs)
-  end.
+Notation near := (near cx).
+Notation count_in := (count_in cx).
+Notation holds := (holds cx).
+Notation reasons_raw := (reasons_raw cx).
+Notation reasons := (reasons cx).
+Notation anc_has := (anc_has cx).
 
 (* every gene with recorded hits is a known gene *)
 Definition results_known : Prop := forall o, In o (map fst (results cx)) -> In o (map fst (feats cx)).
@@ -381,4 +366,649 @@ Proof.
   - intros cs HF g local y Hy. rewrite Forall_forall in HF. apply and_matches in Hy.
     destruct Hy as (r & Hr & Hy). apply in_map_iff in Hr. destruct Hr as (c & <- & Hc). exact (HF c Hc g local y Hy).
 Qed.
+
+(* ---------- reasons: soundness and completeness ---------- *)
+Definition item_matches (g : Z) (local : bool) (it : item) : list Z :=
+  matches (match it with
+           | ICond c' => eval cx c' g local
+           | IAnd cs => and_combine (map (fun c' => eval cx c' g local) cs) end).
+Definition item_reasons (g : Z) (local : bool) (it : item) : list Z :=
+  match it with
+  | ICond c' => reasons_raw c' g local
+  | IAnd cs => flat_map (fun c' => reasons_raw c' g local) cs
+  end.
+
+Lemma matches_items g local subs y :
+  (forall it, In it subs -> forall z, In z (item_matches g local it) <-> In z (item_reasons g local it)) ->
+  In y (matches (or_combine (map (fun it => match it with
+                         | ICond c' => eval cx c' g local
+                         | IAnd cs => and_combine (map (fun c' => eval cx c' g local) cs) end) subs)))
+  <-> In y (flat_map (item_reasons g local) subs).
+Proof.
+  intros H. rewrite or_matches, in_flat_map. split.
+  - intros (r & Hr & Hy). apply in_map_iff in Hr. destruct Hr as (it & <- & Hit).
+    exists it. split; [exact Hit|]. apply (H it Hit). exact Hy.
+  - intros (it & Hit & Hy). eexists. split; [apply in_map_iff; exists it; split; [reflexivity|exact Hit]|].
+    apply (H it Hit) in Hy. exact Hy.
+Qed.
+
+Lemma sat_local_met (Hk : results_known) subs g :
+  met (or_combine (map (fun it => match it with
+                         | ICond c' => eval cx c' g true
+                         | IAnd cs => and_combine (map (fun c' => eval cx c' g true) cs) end) subs))
+  = sat_local cx subs g.
+Proof.
+  rewrite met_items. unfold sat_local. apply existsb_ext_in. intros [c|cs] _; cbn [item_met].
+  - apply eval_met_holds. exact Hk.
+  - apply forallb_ext_in. intros c _. apply eval_met_holds. exact Hk.
+Qed.
+
+Theorem eval_matches_reasons_raw : results_known ->
+  forall c g local y, In y (matches (eval cx c g local)) <-> In y (reasons_raw c g local).
+Proof.
+  intros Hk.
+  apply (cond_ind2 (fun c => forall g local y, In y (matches (eval cx c g local)) <-> In y (reasons_raw c g local))
+                   (fun it => forall g local y, In y (item_matches g local it) <-> In y (item_reasons g local it))).
+  - (* Single *)
+    intros neg p g local y. cbn [eval Model.reasons_raw]. destruct (has cx g p) eqn:Hh.
+    + rewrite orb_true_r. cbn [matches]. reflexivity.
+    + rewrite orb_false_r. destruct local; cbn [matches]; [reflexivity|].
+      destruct (fold_left _ _ _); cbn [matches]; reflexivity.
+  - (* Score *)
+    intros neg p s g local y. cbn [eval Model.reasons_raw]. destruct (scored cx g p s) eqn:Hs.
+    + rewrite (scored_has _ _ _ Hs). cbn [andb matches]. reflexivity.
+    + rewrite andb_false_r. destruct local; cbn [matches]; [reflexivity|].
+      destruct (existsb _ _); cbn [matches]; reflexivity.
+  - (* Minimum *)
+    intros neg k opts g local y. cbn [eval Model.reasons_raw].
+    assert (Hin : In y (sinter opts (poss cx g)) <-> In y (filter (fun p => has cx g p) opts)).
+    { rewrite sinter_In, filter_In. unfold has. rewrite smem_In. reflexivity. }
+    destruct (k <=? zlen (sinter opts (poss cx g))); [exact Hin|].
+    destruct (k <=? _); exact Hin.
+  - (* Cds *)
+    intros neg subs HF g local y. cbn [eval Model.reasons_raw]. rewrite Forall_forall in HF.
+    rewrite (sat_local_met Hk).
+    destruct (local || sat_local cx subs g); cbn [matches]; [|reflexivity].
+    apply (matches_items g true subs y). intros it Hit z. apply (HF it Hit).
+  - (* Group *)
+    intros neg subs HF g local y. cbn [eval matches Model.reasons_raw]. rewrite Forall_forall in HF.
+    apply (matches_items g local subs y). intros it Hit z. apply (HF it Hit).
+  - intros c IH g local y. apply IH.
+  - intros cs HF g local y. unfold item_matches, item_reasons. rewrite Forall_forall in HF.
+    rewrite and_matches, in_flat_map. split.
+    + intros (r & Hr & Hy). apply in_map_iff in Hr. destruct Hr as (c & <- & Hc).
+      exists c. split; [exact Hc|]. apply (HF c Hc). exact Hy.
+    + intros (c & Hc & Hy). eexists. split; [apply in_map_iff; exists c; split; [reflexivity|exact Hc]|].
+      apply (HF c Hc). exact Hy.
+Qed.
+
+(* ---------- canonical form: reasons are reported as a strictly increasing list ---------- *)
+Fixpoint ssorted (l : list Z) : Prop :=
+  match l with [] => True | x :: r => (forall y, In y r -> x < y) /\ ssorted r end.
+
+Lemma sinsert_sorted x l : ssorted l -> ssorted (sinsert x l).
+Proof.
+  induction l as [|z l IH]; cbn [sinsert ssorted].
+  - intros _. split; [intros y []|exact I].
+  - intros [Hz Hl]. destruct (x <? z) eqn:H1.
+    + cbn [ssorted]. split; [|split; assumption].
+      intros y [<-|Hy]; [lia|]. specialize (Hz y Hy). lia.
+    + destruct (x =? z) eqn:H2; [cbn [ssorted]; split; assumption|].
+      cbn [ssorted]. split; [|apply IH; exact Hl].
+      intros y Hy. apply sinsert_In in Hy. destruct Hy as [->|Hy]; [lia|apply Hz; exact Hy].
+Qed.
+Lemma sunion_sorted_acc : forall a acc, ssorted acc -> ssorted (fold_left (fun acc x => sinsert x acc) a acc).
+Proof. induction a as [|x a IH]; intros acc H; cbn [fold_left]; [exact H|]. apply IH. apply sinsert_sorted. exact H. Qed.
+Lemma sunion_sorted a b : ssorted b -> ssorted (sunion a b).
+Proof. apply sunion_sorted_acc. Qed.
+Lemma sof_sorted l : ssorted (sof l).
+Proof. apply sunion_sorted. exact I. Qed.
+Lemma filter_sorted f l : ssorted l -> ssorted (filter f l).
+Proof.
+  induction l as [|x l IH]; cbn [filter ssorted]; [trivial|]. intros [Hx Hl].
+  destruct (f x); [|apply IH; exact Hl]. cbn [ssorted]. split; [|apply IH; exact Hl].
+  intros y Hy. apply filter_In in Hy. apply Hx. apply Hy.
+Qed.
+Lemma ssorted_ext : forall a b, ssorted a -> ssorted b -> (forall y, In y a <-> In y b) -> a = b.
+Proof.
+  induction a as [|x a IH]; intros [|z b] Ha Hb H.
+  - reflexivity.
+  - exfalso. apply (H z). left. reflexivity.
+  - exfalso. apply (H x). left. reflexivity.
+  - cbn [ssorted] in Ha, Hb. destruct Ha as [Hx Ha]. destruct Hb as [Hz Hb].
+    assert (x = z).
+    { pose proof (proj1 (H x) (or_introl eq_refl)) as H1. pose proof (proj2 (H z) (or_introl eq_refl)) as H2.
+      destruct H1 as [H1|H1]; [lia|]. destruct H2 as [H2|H2]; [lia|].
+      specialize (Hz x H1). specialize (Hx z H2). lia. }
+    subst z. f_equal. apply IH; [exact Ha|exact Hb|].
+    intros y. split; intros Hy.
+    + destruct (proj1 (H y) (or_intror Hy)) as [Heq|H1]; [|exact H1]. exfalso. specialize (Hx y Hy). lia.
+    + destruct (proj2 (H y) (or_intror Hy)) as [Heq|H1]; [|exact H1]. exfalso. specialize (Hz y Hy). lia.
+Qed.
+
+Lemma or_combine_sorted_acc : forall rs acc, ssorted (matches acc) ->
+  ssorted (matches (fold_left (fun acc r => mkRes (met acc || met r) (sunion (matches r) (matches acc)) (amerge (ancs r) (ancs acc))) rs acc)).
+Proof. induction rs as [|r rs IH]; intros acc H; cbn [fold_left]; [exact H|]. apply IH. cbn [matches]. apply sunion_sorted. exact H. Qed.
+Lemma or_combine_sorted rs : ssorted (matches (or_combine rs)).
+Proof. apply or_combine_sorted_acc. exact I. Qed.
+
+Lemma eval_matches_sorted c g local : ssorted (matches (eval cx c g local)).
+Proof.
+  destruct c as [neg p|neg p s|neg k opts|neg subs|neg subs]; cbn [eval].
+  - destruct (local || has cx g p).
+    + cbn [matches]. destruct (has cx g p); cbn; auto. split; [intros y []|exact I].
+    + destruct (fold_left _ _ _); cbn; exact I.
+  - destruct (has cx g p && scored cx g p s); [cbn; split; [intros y []|exact I]|].
+    destruct local; [cbn; exact I|]. destruct (existsb _ _); cbn; exact I.
+  - assert (H : ssorted (sinter opts (poss cx g))) by (unfold sinter; apply filter_sorted, sof_sorted).
+    destruct (k <=? _); [exact H|]. destruct (k <=? _); exact H.
+  - match goal with |- context [if ?b then _ else _] => destruct b end; cbn [matches]; [apply or_combine_sorted|exact I].
+  - cbn [matches]. apply or_combine_sorted.
+Qed.
+
+Theorem eval_matches_reasons : results_known ->
+  forall c g local, matches (eval cx c g local) = reasons c g local.
+Proof.
+  intros Hk c g local. apply ssorted_ext; [apply eval_matches_sorted|apply sof_sorted|].
+  intros y. unfold Model.reasons. rewrite sof_In. apply eval_matches_reasons_raw. exact Hk.
+Qed.
+
+Lemma nonempty_In {A} (l : list A) : nonempty l = true <-> exists y, In y l.
+Proof. destruct l as [|x l]; cbn; split; [discriminate|intros (y & [])|intros _; exists x; left; reflexivity|reflexivity]. Qed.
+
+(* anchor: reported as anchoring <=> formula true /\ at least one reason *)
+Theorem is_anchor_anchors : results_known -> forall c g, is_anchor (detect cx c g) = anchors cx c g.
+Proof.
+  intros Hk c g. unfold is_anchor, anchors, detect. rewrite (eval_met_holds Hk), (eval_matches_reasons Hk). reflexivity.
+Qed.
+
+(* ---------- ancillary hits ---------- *)
+Definition anc_mem (a : anc) (o p : Z) : Prop := exists ps, In (o, ps) a /\ In p ps.
+
+Lemma anc_mem_nil o p : anc_mem [] o p <-> False.
+Proof. split; [intros (ps & [] & _)|intros []]. Qed.
+Lemma anc_mem_cons h qs r o p : anc_mem ((h, qs) :: r) o p <-> (o = h /\ In p qs) \/ anc_mem r o p.
+Proof.
+  unfold anc_mem. split.
+  - intros (ps & [Heq|Hin] & Hp); [inversion Heq; subst; left; split; [reflexivity|exact Hp]|right; exists ps; split; assumption].
+  - intros [[-> Hp]|(ps & Hin & Hp)]; [exists qs; split; [left; reflexivity|exact Hp]|exists ps; split; [right; exact Hin|exact Hp]].
+Qed.
+Lemma ainsert_mem g ps a o p : anc_mem (ainsert g ps a) o p <-> (o = g /\ In p ps) \/ anc_mem a o p.
+Proof.
+  induction a as [|[h qs] r IH]; cbn [ainsert].
+  - rewrite anc_mem_cons. reflexivity.
+  - destruct (g <? h) eqn:H1; [rewrite anc_mem_cons; reflexivity|].
+    destruct (g =? h) eqn:H2.
+    + assert (g = h) by lia. subst h. rewrite !anc_mem_cons, sunion_In. tauto.
+    + rewrite !anc_mem_cons, IH. tauto.
+Qed.
+Lemma amerge_mem_acc : forall a acc o p,
+  anc_mem (fold_left (fun acc e => ainsert (fst e) (snd e) acc) a acc) o p <-> anc_mem a o p \/ anc_mem acc o p.
+Proof.
+  induction a as [|[h qs] a IH]; intros acc o p; cbn [fold_left].
+  - rewrite anc_mem_nil. tauto.
+  - rewrite IH, ainsert_mem, anc_mem_cons. cbn [fst snd]. tauto.
+Qed.
+Lemma amerge_mem a b o p : anc_mem (amerge a b) o p <-> anc_mem a o p \/ anc_mem b o p.
+Proof. apply amerge_mem_acc. Qed.
+
+Lemma or_ancs_acc : forall rs acc o p,
+  anc_mem (ancs (fold_left (fun acc r => mkRes (met acc || met r) (sunion (matches r) (matches acc)) (amerge (ancs r) (ancs acc))) rs acc)) o p
+  <-> anc_mem (ancs acc) o p \/ exists r, In r rs /\ anc_mem (ancs r) o p.
+Proof.
+  induction rs as [|r rs IH]; intros acc o p; cbn [fold_left].
+  - split; [intros H; left; exact H|intros [H|(r & [] & _)]; exact H].
+  - rewrite IH. cbn [ancs]. rewrite amerge_mem. split.
+    + intros [[H|H]|(r' & Hr & Hy)].
+      * right. exists r. split; [left; reflexivity|exact H].
+      * left. exact H.
+      * right. exists r'. split; [right; exact Hr|exact Hy].
+    + intros [H|(r' & [Hr|Hr] & Hy)].
+      * left. right. exact H.
+      * subst. left. left. exact Hy.
+      * right. exists r'. split; assumption.
+Qed.
+Lemma or_ancs rs o p : anc_mem (ancs (or_combine rs)) o p <-> exists r, In r rs /\ anc_mem (ancs r) o p.
+Proof. unfold or_combine. rewrite or_ancs_acc. cbn [ancs]. rewrite anc_mem_nil. tauto. Qed.
+Lemma and_ancs_acc : forall rs acc o p,
+  anc_mem (ancs (fold_left (fun acc r => mkRes (met acc && met r) (sunion (matches r) (matches acc)) (amerge (ancs r) (ancs acc))) rs acc)) o p
+  <-> anc_mem (ancs acc) o p \/ exists r, In r rs /\ anc_mem (ancs r) o p.
+Proof.
+  induction rs as [|r rs IH]; intros acc o p; cbn [fold_left].
+  - split; [intros H; left; exact H|intros [H|(r & [] & _)]; exact H].
+  - rewrite IH. cbn [ancs]. rewrite amerge_mem. split.
+    + intros [[H|H]|(r' & Hr & Hy)].
+      * right. exists r. split; [left; reflexivity|exact H].
+      * left. exact H.
+      * right. exists r'. split; [right; exact Hr|exact Hy].
+    + intros [H|(r' & [Hr|Hr] & Hy)].
+      * left. right. exact H.
+      * subst. left. left. exact Hy.
+      * right. exists r'. split; assumption.
+Qed.
+Lemma and_ancs rs o p : anc_mem (ancs (and_combine rs)) o p <-> exists r, In r rs /\ anc_mem (ancs r) o p.
+Proof. unfold and_combine. rewrite and_ancs_acc. cbn [ancs]. rewrite anc_mem_nil. tauto. Qed.
+
+Lemma single_fold_mem (f : Z -> bool) q : forall l acc o p,
+  anc_mem (fold_left (fun acc o' => if f o' then ainsert o' [q] acc else acc) l acc) o p
+  <-> anc_mem acc o p \/ (In o l /\ f o = true /\ p = q).
+Proof.
+  induction l as [|x l IH]; intros acc o p; cbn [fold_left].
+  - cbn [In]. tauto.
+  - rewrite IH. destruct (f x) eqn:Hf.
+    + rewrite ainsert_mem. cbn [In]. split.
+      * intros [[[-> [<-|[]]]|H]|(H1 & H2 & H3)]; [right; auto|left; exact H|right; auto].
+      * intros [H|([<-|H1] & H2 & H3)]; [left; right; exact H|left; left; split; [reflexivity|left; symmetry; exact H3]|right; auto].
+    + cbn [In]. split.
+      * intros [H|(H1 & H2 & H3)]; [left; exact H|right; auto].
+      * intros [H|([<-|H1] & H2 & H3)]; [left; exact H|congruence|right; auto].
+Qed.
+
+Definition item_ancs (g : Z) (local : bool) (it : item) : anc :=
+  ancs (match it with
+        | ICond c' => eval cx c' g local
+        | IAnd cs => and_combine (map (fun c' => eval cx c' g local) cs) end).
+Definition item_anc_has (g : Z) (local : bool) (o p : Z) (it : item) : bool :=
+  match it with
+  | ICond c' => anc_has c' g local o p
+  | IAnd cs => existsb (fun c' => anc_has c' g local o p) cs
+  end.
+
+Theorem eval_ancs_spec : results_known ->
+  forall c g local o p, anc_mem (ancs (eval cx c g local)) o p <-> anc_has c g local o p = true.
+Proof.
+  intros Hk.
+  apply (cond_ind2 (fun c => forall g local o p, anc_mem (ancs (eval cx c g local)) o p <-> anc_has c g local o p = true)
+                   (fun it => forall g local o p, anc_mem (item_ancs g local it) o p <-> item_anc_has g local o p it = true)).
+  - (* Single *)
+    intros neg q g local o p. cbn [eval Model.anc_has].
+    destruct local; cbn [orb negb andb]; [cbn [ancs]; rewrite anc_mem_nil; split; [intros []|discriminate]|].
+    destruct (has cx g q) eqn:Hh; cbn [negb andb]; [cbn [ancs]; rewrite anc_mem_nil; split; [intros []|discriminate]|].
+    match goal with |- anc_mem (ancs (match ?a with [] => _ | _ => _ end)) _ _ <-> _ =>
+      assert (Heq : ancs (match a with [] => mkRes neg [] [] | _ => mkRes (negb neg) [] a end) = a) by (destruct a; reflexivity);
+      rewrite Heq; clear Heq end.
+    rewrite single_fold_mem, anc_mem_nil. split.
+    + intros [[]|(Hin & Hf & ->)]. unfold result_others in Hin. apply filter_In in Hin. destruct Hin as [Hin Hr].
+      rewrite Z.eqb_refl, Hf. cbn [andb]. rewrite andb_true_r. apply smem_In. unfold Model.near, feat_others.
+      apply filter_In. split; [apply Hk; exact Hin|exact Hr].
+    + intros H. apply andb_true_iff in H. destruct H as [H Hf]. apply andb_true_iff in H. destruct H as [Hpq Hn].
+      assert (p = q) by lia. subst p. apply smem_In in Hn. unfold Model.near, feat_others in Hn.
+      apply filter_In in Hn. destruct Hn as [_ Hr]. right. split; [|split; [exact Hf|reflexivity]].
+      unfold result_others. apply filter_In. split; [apply (has_known _ _ Hf)|exact Hr].
+  - (* Score *)
+    intros neg q s g local o p. cbn [eval Model.anc_has].
+    destruct (has cx g q && scored cx g q s); [cbn [ancs]; rewrite anc_mem_nil; split; [intros []|discriminate]|].
+    destruct local; [cbn [ancs]; rewrite anc_mem_nil; split; [intros []|discriminate]|].
+    destruct (existsb _ _); cbn [ancs]; rewrite anc_mem_nil; (split; [intros []|discriminate]).
+  - (* Minimum *)
+    intros neg k opts g local o p. cbn [eval Model.anc_has]. fold (count_in opts g).
+    destruct (k <=? count_in opts g) eqn:Hown; cbn [negb andb]; [cbn [ancs]; rewrite anc_mem_nil; split; [intros []|discriminate]|].
+    rewrite minimum_count. unfold count_total, Model.near.
+    destruct (k <=? fold_left _ _ _); cbn [andb]; [|cbn [ancs]; rewrite anc_mem_nil; split; [intros []|discriminate]].
+    cbn [ancs]. rewrite amerge_mem, anc_mem_nil. rewrite !andb_true_iff, !smem_In. unfold anc_mem. split.
+    + intros [(ps & Hin & Hp)|[]]. apply filter_In in Hin. destruct Hin as [Hin _].
+      apply in_map_iff in Hin. destruct Hin as (o' & Heq & Ho). inversion Heq; subst. apply sinter_In in Hp.
+      repeat split; [exact Ho|apply Hp|apply smem_In; apply Hp].
+    + intros ((Ho & Hp) & Hh). left. exists (sinter opts (poss cx o)).
+      assert (Hy : In p (sinter opts (poss cx o))) by (apply sinter_In; split; [exact Hp|apply smem_In; exact Hh]).
+      split; [|exact Hy]. apply filter_In. split.
+      * apply in_map_iff. exists o. split; [reflexivity|exact Ho].
+      * cbn [snd]. destruct (sinter opts (poss cx o)); [destruct Hy|reflexivity].
+  - (* Cds *)
+    intros neg subs _ g local o p. cbn [eval Model.anc_has].
+    match goal with |- context [if ?b then _ else _] => destruct b end; cbn [ancs]; rewrite anc_mem_nil; (split; [intros []|discriminate]).
+  - (* Group *)
+    intros neg subs HF g local o p. cbn [eval ancs Model.anc_has]. rewrite Forall_forall in HF.
+    rewrite or_ancs, existsb_exists. split.
+    + intros (r & Hr & Hy). apply in_map_iff in Hr. destruct Hr as (it & <- & Hit).
+      exists it. split; [exact Hit|]. apply (HF it Hit g local o p). exact Hy.
+    + intros (it & Hit & Hy). eexists. split; [apply in_map_iff; exists it; split; [reflexivity|exact Hit]|].
+      apply (HF it Hit g local o p). exact Hy.
+  - intros c IH g local o p. apply IH.
+  - intros cs HF g local o p. unfold item_ancs, item_anc_has. rewrite Forall_forall in HF.
+    rewrite and_ancs, existsb_exists. split.
+    + intros (r & Hr & Hy). apply in_map_iff in Hr. destruct Hr as (c & <- & Hc).
+      exists c. split; [exact Hc|]. apply (HF c Hc). exact Hy.
+    + intros (c & Hc & Hy). eexists. split; [apply in_map_iff; exists c; split; [reflexivity|exact Hc]|].
+      apply (HF c Hc). exact Hy.
+Qed.
 End Spec.
+
+(* ---------- ancillary entries are never empty; keys ---------- *)
+Definition anc_wf (a : anc) : Prop := forall o ps, In (o, ps) a -> ps <> [].
+
+Lemma keys_mem a o : anc_wf a -> (In o (map fst a) <-> exists p, anc_mem a o p).
+Proof.
+  intros Hw. split.
+  - intros H. apply in_map_iff in H. destruct H as ((o', ps) & Heq & Hin). cbn [fst] in Heq. subst o'.
+    pose proof (Hw o ps Hin) as Hne. destruct ps as [|p ps']; [contradiction|].
+    exists p, (p :: ps'). split; [exact Hin|left; reflexivity].
+  - intros (p & ps & Hin & _). apply in_map_iff. exists (o, ps). split; [reflexivity|exact Hin].
+Qed.
+
+Lemma sunion_nonempty ps qs : ps <> [] -> sunion ps qs <> [].
+Proof.
+  destruct ps as [|x ps']; [contradiction|]. intros _ H.
+  assert (Hin : In x (sunion (x :: ps') qs)) by (apply sunion_In; left; left; reflexivity).
+  rewrite H in Hin. destruct Hin.
+Qed.
+Lemma ainsert_wf g ps a : ps <> [] -> anc_wf a -> anc_wf (ainsert g ps a).
+Proof.
+  intros Hps. induction a as [|[h qs] r IH]; intros Hw; cbn [ainsert].
+  - intros o ps' [Heq|[]]. inversion Heq; subst. exact Hps.
+  - assert (Hr : anc_wf r) by (intros o ps' Hin; apply (Hw o ps'); right; exact Hin).
+    destruct (g <? h).
+    + intros o ps' [Heq|Hin]; [inversion Heq; subst; exact Hps|apply (Hw o ps' Hin)].
+    + destruct (g =? h).
+      * intros o ps' [Heq|Hin]; [inversion Heq; subst; apply sunion_nonempty; exact Hps|apply (Hr o ps' Hin)].
+      * intros o ps' [Heq|Hin]; [inversion Heq; subst; apply (Hw o ps'); left; reflexivity|apply (IH Hr o ps' Hin)].
+Qed.
+Lemma amerge_wf_acc : forall a acc, anc_wf a -> anc_wf acc ->
+  anc_wf (fold_left (fun acc e => ainsert (fst e) (snd e) acc) a acc).
+Proof.
+  induction a as [|[h qs] a IH]; intros acc Ha Hacc; cbn [fold_left]; [exact Hacc|].
+  apply IH.
+  - intros o ps Hin. apply (Ha o ps). right. exact Hin.
+  - cbn [fst snd]. apply ainsert_wf; [apply (Ha h qs); left; reflexivity|exact Hacc].
+Qed.
+Lemma amerge_wf a b : anc_wf a -> anc_wf b -> anc_wf (amerge a b).
+Proof. apply amerge_wf_acc. Qed.
+Lemma anc_wf_nil : anc_wf [].
+Proof. intros o ps []. Qed.
+
+Lemma or_ancs_wf_acc : forall rs acc, anc_wf (ancs acc) -> (forall r, In r rs -> anc_wf (ancs r)) ->
+  anc_wf (ancs (fold_left (fun acc r => mkRes (met acc || met r) (sunion (matches r) (matches acc)) (amerge (ancs r) (ancs acc))) rs acc)).
+Proof.
+  induction rs as [|r rs IH]; intros acc Ha Hr; cbn [fold_left]; [exact Ha|].
+  apply IH; [cbn [ancs]; apply amerge_wf; [apply Hr; left; reflexivity|exact Ha]|intros r' Hin; apply Hr; right; exact Hin].
+Qed.
+Lemma and_ancs_wf_acc : forall rs acc, anc_wf (ancs acc) -> (forall r, In r rs -> anc_wf (ancs r)) ->
+  anc_wf (ancs (fold_left (fun acc r => mkRes (met acc && met r) (sunion (matches r) (matches acc)) (amerge (ancs r) (ancs acc))) rs acc)).
+Proof.
+  induction rs as [|r rs IH]; intros acc Ha Hr; cbn [fold_left]; [exact Ha|].
+  apply IH; [cbn [ancs]; apply amerge_wf; [apply Hr; left; reflexivity|exact Ha]|intros r' Hin; apply Hr; right; exact Hin].
+Qed.
+Lemma single_fold_wf (f : Z -> bool) q : forall l acc, anc_wf acc ->
+  anc_wf (fold_left (fun acc o' => if f o' then ainsert o' [q] acc else acc) l acc).
+Proof.
+  induction l as [|x l IH]; intros acc Ha; cbn [fold_left]; [exact Ha|].
+  apply IH. destruct (f x); [apply ainsert_wf; [discriminate|exact Ha]|exact Ha].
+Qed.
+
+Theorem eval_ancs_wf cx : forall c g local, anc_wf (ancs (eval cx c g local)).
+Proof.
+  apply (cond_ind2 (fun c => forall g local, anc_wf (ancs (eval cx c g local)))
+                   (fun it => forall g local, anc_wf (item_ancs cx g local it))).
+  - intros neg q g local. cbn [eval]. destruct (local || has cx g q); [apply anc_wf_nil|].
+    match goal with |- anc_wf (ancs (match ?a with [] => _ | _ => _ end)) =>
+      assert (Heq : ancs (match a with [] => mkRes neg [] [] | _ => mkRes (negb neg) [] a end) = a) by (destruct a; reflexivity);
+      rewrite Heq; clear Heq end.
+    apply single_fold_wf. apply anc_wf_nil.
+  - intros neg q s g local. cbn [eval]. destruct (has cx g q && scored cx g q s); [apply anc_wf_nil|].
+    destruct local; [apply anc_wf_nil|]. destruct (existsb _ _); apply anc_wf_nil.
+  - intros neg k opts g local. cbn [eval]. destruct (k <=? _); [apply anc_wf_nil|].
+    destruct (k <=? _); [|apply anc_wf_nil]. cbn [ancs]. apply amerge_wf; [|apply anc_wf_nil].
+    intros o ps Hin. apply filter_In in Hin. destruct Hin as [_ Hne]. cbn [snd] in Hne. intros ->. discriminate.
+  - intros neg subs _ g local. cbn [eval].
+    match goal with |- context [if ?b then _ else _] => destruct b end; apply anc_wf_nil.
+  - intros neg subs HF g local. cbn [eval ancs]. rewrite Forall_forall in HF. unfold or_combine.
+    apply or_ancs_wf_acc; [apply anc_wf_nil|]. intros r Hr. apply in_map_iff in Hr. destruct Hr as (it & <- & Hit).
+    apply (HF it Hit g local).
+  - intros c IH g local. apply IH.
+  - intros cs HF g local. unfold item_ancs, and_combine. rewrite Forall_forall in HF.
+    apply and_ancs_wf_acc; [apply anc_wf_nil|]. intros r Hr. apply in_map_iff in Hr. destruct Hr as (c & <- & Hc).
+    apply (HF c Hc g local).
+Qed.
+
+(* an ancillary gene is another known gene, closer than the cutoff, carrying a profile of the rule *)
+Theorem anc_has_in_range cx : forall c g local o p, anc_has cx c g local o p = true ->
+  In o (near cx g) /\ has cx o p = true /\ In p (profiles c).
+Proof.
+  apply (cond_ind2 (fun c => forall g local o p, anc_has cx c g local o p = true ->
+                              In o (near cx g) /\ has cx o p = true /\ In p (profiles c))
+                   (fun it => forall g local o p, item_anc_has cx g local o p it = true ->
+                              In o (near cx g) /\ has cx o p = true /\
+                              In p (match it with ICond c' => profiles c' | IAnd cs => flat_map profiles cs end))).
+  - intros neg q g local o p H. cbn [anc_has] in H.
+    apply andb_true_iff in H. destruct H as [H Hh]. apply andb_true_iff in H. destruct H as [H Hn].
+    apply andb_true_iff in H. destruct H as [_ Hpq].
+    assert (p = q) by lia. subst. repeat split; [apply smem_In; exact Hn|exact Hh|left; reflexivity].
+  - intros neg q s g local o p H. discriminate.
+  - intros neg k opts g local o p H. cbn [anc_has] in H.
+    apply andb_true_iff in H. destruct H as [H Hh]. apply andb_true_iff in H. destruct H as [H Hp].
+    apply andb_true_iff in H. destruct H as [_ Hn].
+    repeat split; [apply smem_In; exact Hn|exact Hh|apply smem_In; exact Hp].
+  - intros neg subs _ g local o p H. discriminate.
+  - intros neg subs HF g local o p H. cbn [anc_has] in H. rewrite Forall_forall in HF.
+    apply existsb_exists in H. destruct H as (it & Hit & H).
+    destruct (HF it Hit g local o p H) as (H1 & H2 & H3). repeat split; [exact H1|exact H2|].
+    cbn [profiles]. apply in_flat_map. exists it. split; [exact Hit|exact H3].
+  - intros c IH g local o p H. apply IH in H. exact H.
+  - intros cs HF g local o p H. cbn [item_anc_has] in H. rewrite Forall_forall in HF.
+    apply existsb_exists in H. destruct H as (c & Hc & H).
+    destruct (HF c Hc g local o p H) as (H1 & H2 & H3). repeat split; [exact H1|exact H2|].
+    apply in_flat_map. exists c. split; [exact Hc|exact H3].
+Qed.
+
+Lemma near_spec cx g o : In o (near cx g) <-> In o (map fst (feats cx)) /\ o <> g /\ in_range cx g o = true.
+Proof.
+  unfold near, feat_others. rewrite filter_In, andb_true_iff. split.
+  - intros (H1 & H2 & H3). repeat split; [exact H1|lia|exact H3].
+  - intros (H1 & H2 & H3). repeat split; [exact H1|lia|exact H3].
+Qed.
+
+(* reasons are profiles of the rule that hit the gene *)
+Theorem reasons_raw_profiles cx : forall c g local y, In y (reasons_raw cx c g local) ->
+  In y (profiles c) /\ has cx g y = true.
+Proof.
+  apply (cond_ind2 (fun c => forall g local y, In y (reasons_raw cx c g local) -> In y (profiles c) /\ has cx g y = true)
+                   (fun it => forall g local y, In y (item_reasons cx g local it) ->
+                      In y (match it with ICond c' => profiles c' | IAnd cs => flat_map profiles cs end) /\ has cx g y = true)).
+  - intros neg p g local y. cbn [reasons_raw profiles]. destruct (has cx g p) eqn:Hh; [|intros []].
+    intros [<-|[]]. split; [left; reflexivity|exact Hh].
+  - intros neg p s g local y. cbn [reasons_raw profiles]. destruct (scored cx g p s) eqn:Hs; [|intros []].
+    intros [<-|[]]. split; [left; reflexivity|apply (scored_has cx _ _ _ Hs)].
+  - intros neg k opts g local y. cbn [reasons_raw profiles]. intros H. apply filter_In in H. exact H.
+  - intros neg subs HF g local y. cbn [reasons_raw profiles]. rewrite Forall_forall in HF.
+    destruct (local || sat_local cx subs g); [|intros []].
+    intros H. apply in_flat_map in H. destruct H as (it & Hit & H).
+    destruct (HF it Hit g true y H) as [H1 H2]. split; [|exact H2]. apply in_flat_map. exists it. split; [exact Hit|exact H1].
+  - intros neg subs HF g local y. cbn [reasons_raw profiles]. rewrite Forall_forall in HF.
+    intros H. apply in_flat_map in H. destruct H as (it & Hit & H).
+    destruct (HF it Hit g local y H) as [H1 H2]. split; [|exact H2]. apply in_flat_map. exists it. split; [exact Hit|exact H1].
+  - intros c IH g local y H. apply IH in H. exact H.
+  - intros cs HF g local y H. cbn [item_reasons] in H. rewrite Forall_forall in HF.
+    apply in_flat_map in H. destruct H as (c & Hc & H).
+    destruct (HF c Hc g local y H) as [H1 H2]. split; [|exact H2]. apply in_flat_map. exists c. split; [exact Hc|exact H1].
+Qed.
+
+(* ---------- the property text's reading of the cds proviso ---------- *)
+Definition item_all (f : cond -> bool) (it : item) : bool :=
+  match it with ICond c' => f c' | IAnd cs => forallb f cs end.
+Fixpoint no_cds (c : cond) : bool :=
+  match c with
+  | Single _ _ | Score _ _ _ | Minimum _ _ _ => true
+  | Cds _ _ => false
+  | Group _ subs => forallb (fun it => match it with ICond c' => no_cds c' | IAnd cs => forallb no_cds cs end) subs
+  end.
+(* no cds(...) inside a cds(...): all the rule grammar can produce *)
+Fixpoint cds_flat (c : cond) : bool :=
+  match c with
+  | Single _ _ | Score _ _ _ | Minimum _ _ _ => true
+  | Cds _ subs => forallb (fun it => match it with ICond c' => no_cds c' | IAnd cs => forallb no_cds cs end) subs
+  | Group _ subs => forallb (fun it => match it with ICond c' => cds_flat c' | IAnd cs => forallb cds_flat cs end) subs
+  end.
+
+Lemma flat_map_ext_in {A B} (f h : A -> list B) l : (forall x, In x l -> f x = h x) -> flat_map f l = flat_map h l.
+Proof.
+  induction l as [|x l IH]; cbn [flat_map]; intros H; [reflexivity|].
+  rewrite H by (left; reflexivity). rewrite IH; [reflexivity|]. intros y Hy. apply H. right. exact Hy.
+Qed.
+
+Definition item_reasons_text cx (g : Z) (it : item) : list Z :=
+  match it with
+  | ICond c' => reasons_text_raw cx c' g
+  | IAnd cs => flat_map (fun c' => reasons_text_raw cx c' g) cs
+  end.
+
+Lemma no_cds_reasons cx : forall c g local, no_cds c = true -> reasons_raw cx c g local = reasons_text_raw cx c g.
+Proof.
+  apply (cond_ind2 (fun c => forall g local, no_cds c = true -> reasons_raw cx c g local = reasons_text_raw cx c g)
+                   (fun it => forall g local, item_all no_cds it = true -> item_reasons cx g local it = item_reasons_text cx g it)).
+  - reflexivity.
+  - reflexivity.
+  - reflexivity.
+  - intros neg subs _ g local H. discriminate.
+  - intros neg subs HF g local H. cbn [no_cds] in H. cbn [reasons_raw reasons_text_raw]. rewrite Forall_forall in HF.
+    rewrite forallb_forall in H. apply flat_map_ext_in. intros it Hit. apply (HF it Hit g local). apply (H it Hit).
+  - intros c IH g local H. apply IH. exact H.
+  - intros cs HF g local H. cbn [item_all] in H. cbn [item_reasons item_reasons_text]. rewrite Forall_forall in HF.
+    rewrite forallb_forall in H. apply flat_map_ext_in. intros c Hc. apply (HF c Hc g local). apply (H c Hc).
+Qed.
+
+Theorem cds_flat_reasons cx : forall c g, cds_flat c = true -> reasons_raw cx c g false = reasons_text_raw cx c g.
+Proof.
+  apply (cond_ind2 (fun c => forall g, cds_flat c = true -> reasons_raw cx c g false = reasons_text_raw cx c g)
+                   (fun it => forall g, item_all cds_flat it = true -> item_reasons cx g false it = item_reasons_text cx g it)).
+  - reflexivity.
+  - reflexivity.
+  - reflexivity.
+  - intros neg subs _ g H. cbn [cds_flat] in H. cbn [reasons_raw reasons_text_raw orb].
+    destruct (sat_local cx subs g); [|reflexivity]. rewrite forallb_forall in H.
+    apply flat_map_ext_in. intros [c|cs] Hit; specialize (H _ Hit).
+    + apply no_cds_reasons. exact H.
+    + rewrite forallb_forall in H. apply flat_map_ext_in. intros c Hc. apply no_cds_reasons. apply H. exact Hc.
+  - intros neg subs HF g H. cbn [cds_flat] in H. cbn [reasons_raw reasons_text_raw]. rewrite Forall_forall in HF.
+    rewrite forallb_forall in H. apply flat_map_ext_in. intros it Hit. apply (HF it Hit g). apply (H it Hit).
+  - intros c IH g H. apply IH. exact H.
+  - intros cs HF g H. cbn [item_all] in H. cbn [item_reasons item_reasons_text]. rewrite Forall_forall in HF.
+    rewrite forallb_forall in H. apply flat_map_ext_in. intros c Hc. apply (HF c Hc g). apply (H c Hc).
+Qed.
+
+(* ---------- apply_cluster_rules for one rule ---------- *)
+Definition evals_known (evals : list (Z * ctx)) : Prop := forall e, In e evals -> results_known (snd e).
+
+Lemma apply_rule_acc c : forall evals acc o p,
+  anc_mem (fold_left (fun acc e =>
+               let r := detect (snd e) c (fst e) in
+               if is_anchor r then amerge (ancs r) (ainsert (fst e) (matches r) acc) else acc) evals acc) o p
+  <-> anc_mem acc o p \/
+      exists e, In e evals /\ is_anchor (detect (snd e) c (fst e)) = true /\
+                ((o = fst e /\ In p (matches (detect (snd e) c (fst e)))) \/ anc_mem (ancs (detect (snd e) c (fst e))) o p).
+Proof.
+  induction evals as [|e evals IH]; intros acc o p; cbn [fold_left].
+  - split; [intros H; left; exact H|intros [H|(e & [] & _)]; exact H].
+  - rewrite IH. cbv zeta. destruct (is_anchor (detect (snd e) c (fst e))) eqn:Ha.
+    + rewrite amerge_mem, ainsert_mem. split.
+      * intros [[H|[H|H]]|(e' & He & H)].
+        -- right. exists e. split; [left; reflexivity|]. split; [exact Ha|right; exact H].
+        -- right. exists e. split; [left; reflexivity|]. split; [exact Ha|left; exact H].
+        -- left. exact H.
+        -- right. exists e'. split; [right; exact He|exact H].
+      * intros [H|(e' & [He|He] & Ha' & H)].
+        -- left. right. right. exact H.
+        -- subst e'. left. destruct H as [H|H]; [right; left; exact H|left; exact H].
+        -- right. exists e'. split; [exact He|]. split; [exact Ha'|exact H].
+    + split.
+      * intros [H|(e' & He & H)]; [left; exact H|right; exists e'; split; [right; exact He|exact H]].
+      * intros [H|(e' & [He|He] & Ha' & H)]; [left; exact H|subst e'; congruence|right; exists e'; split; [exact He|split; [exact Ha'|exact H]]].
+Qed.
+
+Theorem apply_rule_mem c evals : evals_known evals ->
+  forall o p, anc_mem (apply_rule c evals) o p <-> recorded_spec c evals o p = true.
+Proof.
+  intros Hk o p. unfold apply_rule. rewrite apply_rule_acc, anc_mem_nil. unfold recorded_spec. rewrite existsb_exists. split.
+  - intros [[]|(e & He & Ha & Hor)]. exists e. split; [exact He|].
+    rewrite <- (is_anchor_anchors (snd e) (Hk e He)). rewrite Ha. cbn [andb]. apply orb_true_iff.
+    unfold detect in Hor. destruct Hor as [[-> Hp]|Hm].
+    + left. rewrite Z.eqb_refl. cbn [andb]. apply smem_In. rewrite <- (eval_matches_reasons (snd e) (Hk e He)). exact Hp.
+    + right. apply (eval_ancs_spec (snd e) (Hk e He)). exact Hm.
+  - intros (e & He & H). apply andb_true_iff in H. destruct H as [Ha Hor]. right. exists e. split; [exact He|].
+    split; [rewrite (is_anchor_anchors (snd e) (Hk e He)); exact Ha|]. unfold detect.
+    apply orb_true_iff in Hor. destruct Hor as [H|H].
+    + apply andb_true_iff in H. destruct H as [H1 H2]. left. split; [lia|].
+      rewrite (eval_matches_reasons (snd e) (Hk e He)). apply smem_In. exact H2.
+    + right. apply (eval_ancs_spec (snd e) (Hk e He)). exact H.
+Qed.
+
+Lemma apply_rule_wf_acc c : forall evals acc, anc_wf acc ->
+  anc_wf (fold_left (fun acc e =>
+               let r := detect (snd e) c (fst e) in
+               if is_anchor r then amerge (ancs r) (ainsert (fst e) (matches r) acc) else acc) evals acc).
+Proof.
+  induction evals as [|e evals IH]; intros acc Ha; cbn [fold_left]; [exact Ha|].
+  apply IH. cbv zeta. destruct (is_anchor (detect (snd e) c (fst e))) eqn:Han; [|exact Ha].
+  apply amerge_wf; [apply eval_ancs_wf|]. apply ainsert_wf; [|exact Ha].
+  unfold is_anchor in Han. apply andb_true_iff in Han. destruct Han as [_ Hne]. intros Heq. rewrite Heq in Hne. discriminate.
+Qed.
+
+(* the genes a rule is reported for (cluster_type_hits[rule]): the genes that anchor in their own
+   evaluation, and the ancillary genes of an anchoring gene *)
+Theorem rule_hits_spec c evals : evals_known evals ->
+  forall o, In o (rule_hits c evals) <->
+            exists e, In e evals /\ anchors (snd e) c (fst e) = true /\
+                      (o = fst e \/ exists p, anc_has (snd e) c (fst e) false o p = true).
+Proof.
+  intros Hk o. unfold rule_hits. rewrite keys_mem by (apply apply_rule_wf_acc; apply anc_wf_nil). split.
+  - intros (p & H). apply (apply_rule_mem c evals Hk) in H. unfold recorded_spec in H. apply existsb_exists in H.
+    destruct H as (e & He & H). apply andb_true_iff in H. destruct H as [Ha Hor]. exists e. split; [exact He|]. split; [exact Ha|].
+    apply orb_true_iff in Hor. destruct Hor as [H|H].
+    + apply andb_true_iff in H. left. lia.
+    + right. exists p. exact H.
+  - intros (e & He & Ha & Hor). destruct Hor as [->|(p & Hp)].
+    + pose proof Ha as Ha'. unfold anchors in Ha'. apply andb_true_iff in Ha'. destruct Ha' as [_ Hne].
+      apply nonempty_In in Hne. destruct Hne as (p & Hp). exists p. apply (apply_rule_mem c evals Hk).
+      unfold recorded_spec. apply existsb_exists. exists e. split; [exact He|]. rewrite Ha. cbn [andb].
+      apply orb_true_iff. left. rewrite Z.eqb_refl. cbn [andb]. apply smem_In. exact Hp.
+    + exists p. apply (apply_rule_mem c evals Hk).
+      unfold recorded_spec. apply existsb_exists. exists e. split; [exact He|]. rewrite Ha. cbn [andb].
+      apply orb_true_iff. right. exact Hp.
+Qed.
+
+Lemma detect_anchor_iff cx : results_known cx -> forall c g,
+  (met (detect cx c g) = true /\ matches (detect cx c g) <> []) <->
+  (holds cx c g false = true /\ reasons cx c g false <> []).
+Proof. intros Hk c g. unfold detect. rewrite (eval_met_holds cx Hk), (eval_matches_reasons cx Hk). reflexivity. Qed.
+
+Lemma detect_reasons_text cx : results_known cx -> forall c g, cds_flat c = true ->
+  matches (detect cx c g) = reasons_text cx c g.
+Proof.
+  intros Hk c g Hf. unfold detect. rewrite (eval_matches_reasons cx Hk). unfold reasons, reasons_text.
+  rewrite (cds_flat_reasons cx c g Hf). reflexivity.
+Qed.
+
+Lemma reasons_profiles cx c g local y : In y (reasons cx c g local) -> In y (profiles c) /\ has cx g y = true.
+Proof. unfold reasons. rewrite sof_In. apply reasons_raw_profiles. Qed.
+
+Lemma anc_has_facts cx c g local o p : anc_has cx c g local o p = true ->
+  In o (map fst (feats cx)) /\ o <> g /\ in_range cx g o = true /\ has cx o p = true /\ In p (profiles c).
+Proof.
+  intros H. apply anc_has_in_range in H. destruct H as (H1 & H2 & H3). apply near_spec in H1.
+  destruct H1 as (Ha & Hb & Hc). repeat split; assumption.
+Qed.
+
+(* witnesses *)
+Definition nested_ctx : ctx := mkCtx 20 None [(0, [mkPart 0 10 1])] [(0, [(0, 100); (1, 100)])].
+Definition nested_cds : cond :=
+  Cds false [ICond (Single false 0); ICond (Cds false [IAnd [Single false 1; Single false 2]])].
+Lemma nested_cds_witness : exists cx c g, results_known cx /\ matches (detect cx c g) <> reasons_text cx c g.
+Proof.
+  exists nested_ctx, nested_cds, 0. split; [intros o Ho; cbn in Ho; cbn; tauto|]. vm_compute. discriminate.
+Qed.
+
+(* three genes in a row, 2 apart, cutoff 5: only the middle one sees both others *)
+Definition chain_ctx : ctx :=
+  mkCtx 5 None [(0, [mkPart 0 10 1]); (1, [mkPart 12 20 1]); (2, [mkPart 22 30 1])]
+        [(0, [(1, 100)]); (1, [(0, 100)]); (2, [(2, 100)])].
+Definition chain_rule : cond := Group false [IAnd [Single false 0; Single false 1; Single false 2]].
+Definition chain_evals : list (Z * ctx) := [(0, chain_ctx); (1, chain_ctx); (2, chain_ctx)].
+Lemma promoted_witness : exists c evals o cx,
+  evals_known evals /\ In (o, cx) evals /\ In o (rule_hits c evals) /\ anchors cx c o = false /\ holds cx c o false = false.
+Proof.
+  exists chain_rule, chain_evals, 0, chain_ctx. split.
+  - intros e [<-|[<-|[<-|[]]]] o Ho; cbn in Ho; cbn; tauto.
+  - split; [left; reflexivity|]. split; [vm_compute; tauto|]. split; vm_compute; reflexivity.
+Qed.
+
+Lemma detect_met_holds cx : results_known cx -> forall c g, met (detect cx c g) = holds cx c g false.
+Proof. intros Hk c g. apply eval_met_holds. exact Hk. Qed.
